@@ -54,7 +54,7 @@ def m_len(ex, args, kw, st, fr, node):
         return _out(st, VInt(slen(v.t)))
     if isinstance(v, (VList, VTuple)):
         return _out(st, VInt(len(v.items)))
-    if type(v).__name__ == 'VTupSeq':
+    if type(v).__name__ in ('VTupSeq', 'VAbsList'):
         return _out(st, v.len())
     if isinstance(v, VStr):
         return _out(st, VInt(len(v.s)))
